@@ -128,7 +128,9 @@ Rows  == {[cur |-> c, st |-> s] : c \in CurKs, s \in Stmts}
 \*   prepare_switch   USE cur; PREPARE st; USE other; EXECUTE      (other: keyspace of the opposite kind)
 \*   switch_query     USE cur; USE other; QUERY st                 (the last USE counts)
 \*   faileduse_query  USE cur; USE <unknown keyspace>; QUERY st    (a failed USE changes nothing)
-Vias  == {"query", "prepare", "prepare_switch", "switch_query", "faileduse_query"}
+\*   prepare_reqks    USE cur; PREPARE st carrying a keyspace of its own (protocol v5 / DSEv2: "supersedes the keyspace
+\*                    the connection is bound to"), of the opposite kind; EXECUTE
+Vias  == {"query", "prepare", "prepare_switch", "switch_query", "faileduse_query", "prepare_reqks"}
 NoSuchKs == "nosuch"   \* a keyspace the backend does not have
 \* The failed-USE submission is exercised on a core of the statements only (every current keyspace;
 \* SELECT, INSERT and USE; unqualified, system and user qualifier; a system and a user table):
@@ -173,13 +175,14 @@ Other(cur) == IF F(cur) = "system" THEN "ks1" ELSE "system"
 Entry(op, role, st, cur, disp) ==
     [op |-> op, role |-> role, kind |-> st.kind, shape |-> st.name, pre |-> st.pre, qual |-> st.qual,
      table |-> st.table, post |-> st.post, text |-> Text(st), ks |-> cur, disp |-> disp,
-     cc |-> KsClass(cur), qc |-> QualClass(st.qual), tc |-> TableClass(st)]
+     cc |-> KsClass(cur), qc |-> QualClass(st.qual), tc |-> TableClass(st), reqks |-> ""]
 \* effect of a locally executed statement on the connection's keyspace
 KsAfter(cur, st) == IF st.kind = "USE" THEN st.table ELSE cur
 
 -----------------------------------------------------------------------------
 Init == /\ row \in Rows /\ via \in Vias
         /\ (via = "faileduse_query" => row.st \in FailedUseStmts)
+        /\ (via = "prepare_reqks" => row.st.kind # "USE")
         /\ pc = "setks" /\ ks = "" /\ prep = "none" /\ hist = <<>>
 
 \* the client establishes the row's current keyspace (a USE is answered by the proxy)
@@ -203,6 +206,14 @@ Prepare ==
     /\ pc' = (IF via = "prepare_switch" THEN "switch" ELSE "exec")
     /\ prep' = Disp(ks, row.st)
     /\ hist' = Append(hist, Entry("PREPARE", "stmt", row.st, ks, Disp(ks, row.st)))
+    /\ UNCHANGED <<row, via, ks>>
+
+\* the PREPARE names its own keyspace: unqualified names are resolved there, not in the connection's keyspace
+PrepareReqKs ==
+    /\ pc = "stmt" /\ via = "prepare_reqks"
+    /\ pc' = "exec"
+    /\ prep' = Disp(Other(ks), row.st)
+    /\ hist' = Append(hist, [Entry("PREPARE", "stmt", row.st, Other(ks), Disp(Other(ks), row.st)) EXCEPT !.reqks = Other(ks)])
     /\ UNCHANGED <<row, via, ks>>
 
 Switch ==
@@ -229,7 +240,7 @@ Execute ==
 
 Done == pc = "done" /\ UNCHANGED vars
 
-Next == SetKs \/ Query \/ Prepare \/ Switch \/ FailedUse \/ Execute \/ Done
+Next == SetKs \/ Query \/ Prepare \/ PrepareReqKs \/ Switch \/ FailedUse \/ Execute \/ Done
 Spec == Init /\ [][Next]_vars
 
 -----------------------------------------------------------------------------
